@@ -394,7 +394,7 @@ class Ctx:
         return out
 
     def r2(self, rid, fn, ops=(), lhs=(), rhs=(), any_side=(), cond=None, err=None, fail_on=True, sink="ok",
-           bypass=(), desc=None, dominate=True, min_guards=1, strict_ops=True):
+           bypass=(), desc=None, dominate=True, min_guards=1, strict_ops=True, within_iteration=False):
         """There is a guard `cmp(op, lhs, rhs)` in fn whose failing edge (taken when the comparison is
         `fail_on`) leads to the error variant `err` and cannot reach the sink, and (dominate=True) every
         path to the sink passes the guard's passing edge or one of the `bypass` conditions' edges.
@@ -416,6 +416,10 @@ class Ctx:
             dead = set()
             if not targets:
                 return self.lost(rid, "R2", key, d, "no sink call matching %s" % (sink,))
+        if within_iteration:
+            # the guard gates the sink within one loop iteration: paths may not continue through the loop header
+            nx = pat("re:iter::traits::iterator::Iterator::next$")
+            dead = set(dead) | {bi for bi, t in F.calls(key) if call_matches(t, nx)}
         good = []
         for (bi, t_true, t_false, txt) in gs:
             fail_t, pass_t = (t_true, t_false) if fail_on else (t_false, t_true)
@@ -459,7 +463,10 @@ class Ctx:
             # cutting the passing edges: the sink must become unreachable
             cutset = set(cuts)
             # a guard whose pass and fail targets coincide is neutralised
-            p = reach(f, [0], targets, cutset, dead)
+            starts = [0]
+            if within_iteration:
+                starts = [f["blocks"][bi]["term"]["t"] for bi in dead if f["blocks"][bi]["term"]["k"] == "call" and f["blocks"][bi]["term"]["t"] >= 0] or [0]
+            p = reach(f, starts, targets, cutset, dead)
             if p is not None:
                 return self.record(rid, "R2", key, d, "violation", locs,
                                    ["path reaching the sink without passing the guard:"] + path_locs(f, p), key_detail="bypass:" + what)
